@@ -208,6 +208,60 @@ theorem applyUpdate_frame (a : UpdateArgs) (m : Mem) : Frame m (applyUpdate a m)
     · exact forEach_frame _ (completeOne_frame _) _
   · intro m; exact ⟨rfl, rfl, rfl, rfl, rfl, rfl, by simp [clearAll]⟩
 
+/-- the loops of `_update_job_status` raise nothing but AssertionError and KeyError -/
+def UpdErr (e : Option Err) : Prop := e = none ∨ e = some .assertion ∨ e = some .keyError
+
+theorem forEach_err {α : Type} (f : α → Mem → Mem × Option Err) (hf : ∀ a m, UpdErr (f a m).2) :
+    ∀ (l : List α) (m : Mem), UpdErr (forEach f l m).2 := by
+  intro l
+  induction l with
+  | nil => intro m; exact Or.inl rfl
+  | cons a as ih =>
+    intro m
+    have h1 := hf a m
+    unfold forEach
+    split
+    · next m' heq => exact ih m'
+    · next r hne => exact h1
+
+theorem andThen_err (r : Mem × Option Err) (f : Mem → Mem × Option Err) (h1 : UpdErr r.2)
+    (hf : ∀ m, UpdErr (f m).2) : UpdErr (andThen r f).2 := by
+  rcases r with ⟨m, e⟩
+  cases e with
+  | none => exact hf m
+  | some e => exact h1
+
+theorem applyUpdate_err (a : UpdateArgs) (m : Mem) : UpdErr (applyUpdate a m).2 := by
+  unfold applyUpdate
+  apply andThen_err
+  · apply andThen_err
+    · apply andThen_err
+      · apply andThen_err
+        · apply forEach_err
+          intro j m; unfold submitOne
+          split
+          · exact Or.inr (Or.inr rfl)
+          · split
+            · exact Or.inl rfl
+            · exact Or.inr (Or.inl rfl)
+        · intro m; apply forEach_err
+          intro b m; unfold blockOne
+          split
+          · exact Or.inr (Or.inr rfl)
+          · split
+            · exact Or.inl rfl
+            · exact Or.inr (Or.inl rfl)
+      · intro m; apply forEach_err
+        intro j m; exact Or.inl rfl
+    · intro m; apply forEach_err
+      intro j m; unfold completeOne
+      split
+      · split
+        · exact Or.inr (Or.inr rfl)
+        · exact Or.inl rfl
+      · exact Or.inr (Or.inl rfl)
+  · intro m; exact Or.inl rfl
+
 /-! ## 4. effect of a private method on the disk and on the acting handle -/
 
 /-- the config pair: untouched, or written by a handle whose copy was current -/
